@@ -60,6 +60,9 @@ type Run struct {
 	exhaustive bool
 	capsHit    []string
 	deadline   time.Time
+	// PanicIsViolation: a shard process killed by a Go panic / fatal error in repository code
+	// is a violation of the property ("never panics"), not a harness error.
+	PanicIsViolation bool
 }
 
 // Start reads the environment set by /verif/check.
@@ -489,6 +492,21 @@ func (r *Run) RunShards(n, procs int) {
 	}
 	for k := 0; k < n; k++ {
 		x := <-ch
+		if x.err != nil && r.PanicIsViolation && (strings.Contains(string(x.out), "\npanic: ") || strings.Contains(string(x.out), "fatal error: ")) {
+			out := string(x.out)
+			i := strings.Index(out, "\npanic: ")
+			if i < 0 {
+				i = strings.Index(out, "fatal error: ")
+			}
+			msg := out[i:]
+			site := PanicSite(msg)
+			first := strings.SplitN(strings.TrimSpace(msg), "\n", 2)[0]
+			if len(msg) > 1500 {
+				msg = msg[:1500]
+			}
+			r.Violation(r.Prop+"/process-killed-by-panic/"+site, "a goroutine of the system under test panicked and killed the process: "+first+"\n"+msg, map[string]string{"shard": fmt.Sprintf("%d/%d", x.i, n), "note": "re-run the check to reproduce; the schedule is in the shard's exploration order"})
+			continue
+		}
 		if x.err != nil {
 			tail := string(x.out)
 			if len(tail) > 3000 {
